@@ -33,7 +33,7 @@ func longRuns() []longRun {
 func runLongRun(lr longRun) (out []string) {
 	res := vrt.Run(vrt.Config{Horizon: 200_000_000}, func() { out = runLongRunBody(lr); vrt.Join() })
 	if res.Status != vrt.StatusOK {
-		out = append(out, fmt.Sprintf("a run of %d publishes over the %s store blocked for ever or crashed: %s", lr.N, lr.Medium, res.Status))
+		out = append(out, fmt.Sprintf("a run of %d publishes over the %s store blocked for ever or crashed: %s [%s]", lr.N, lr.Medium, res.Status, res.Msg))
 	}
 	return out
 }
